@@ -21,6 +21,17 @@ func main() {
 			os.Exit(2)
 		}
 		fmt.Println("litmus: all passed")
+	case "worker":
+		workerMain(os.Args[2], os.Args[3])
+	case "check":
+		fs := flag.NewFlagSet("check", flag.ExitOnError)
+		tier := fs.String("tier", "quick", "quick|thorough")
+		fs.Parse(os.Args[3:])
+		os.Exit(runCheck(os.Args[2], *tier))
+	case "list":
+		for _, u := range checks[os.Args[2]].Units(os.Args[3]) {
+			fmt.Println(u.Name)
+		}
 	default:
 		fmt.Println("unknown command")
 		os.Exit(2)
